@@ -1380,7 +1380,7 @@ rrul_fill_wly(echs_instant_t *restrict tgt, size_t nti, rrulsp_t rr)
 	     ({
 		     d += rr->inter * 7U;
 		     while (d > maxd) {
-			     d--, d %= maxd, d++;
+			     d -= maxd;
 			     if (++m > 12U) {
 				     y++;
 				     m = 1U;
@@ -1541,7 +1541,7 @@ rrul_fill_dly(echs_instant_t *restrict tgt, size_t nti, rrulsp_t rr)
 			     w = (w - 1U) % 7U + 1U;
 		     }
 		     while (d > maxd) {
-			     d--, d %= maxd, d++;
+			     d -= maxd;
 			     if (++m > 12U) {
 				     y++;
 				     m = 1U;
@@ -1703,7 +1703,7 @@ rrul_fill_Hly(echs_instant_t *restrict tgt, size_t nti, rrulsp_t rr)
 				     w = w % 7U ?: SUN;
 			     }
 			     while (d > maxd) {
-				     d--, d %= maxd, d++;
+				     d -= maxd;
 				     if (++m > 12U) {
 					     y++;
 					     m = 1U;
@@ -1897,7 +1897,7 @@ rrul_fill_Mly(echs_instant_t *restrict tgt, size_t nti, rrulsp_t rr)
 					     w = w % 7U ?: SUN;
 				     }
 				     while (d > maxd) {
-					     d--, d %= maxd, d++;
+					     d -= maxd;
 					     if (++m > 12U) {
 						     y++;
 						     m = 1U;
@@ -2094,7 +2094,7 @@ rrul_fill_Sly(echs_instant_t *restrict tgt, size_t nti, rrulsp_t rr)
 						     w = w % 7U ?: SUN;
 					     }
 					     while (d > maxd) {
-						     d--, d %= maxd, d++;
+						     d -= maxd;
 						     if (++m > 12U) {
 							     y++;
 							     m = 1U;
